@@ -8,7 +8,7 @@ mp = os.path.join(V, "seeded", "MATRIX.quick.txt")
 if os.path.exists(mp):
     for l in open(mp):
         parts = l.split()
-        if len(parts) >= 3:
+        if len(parts) >= 3 and not l.startswith("#"):
             matrix[parts[0]] = " ".join(parts[2:])[:140]
 print("| id | level | obligations discharged | functions under contract | bounded stand-ins (evaluations) | known findings | solver s | wall s |")
 print("|----|-------|------------------------|--------------------------|--------------------------------|----------------|----------|--------|")
